@@ -20,3 +20,68 @@ func init() {
 		Mutant{Name: "uuid-view-helper-half-width", File: "proto/col_uuid_unsafe.go", Old: "\ts := *(*slice)(unsafe.Pointer(c)) // #nosec: G103 // memory layout matches\n\tconst size = 16\n", New: "\ts := *(*slice)(unsafe.Pointer(c)) // #nosec: G103 // memory layout matches\n\tconst size = 8\n", Rule: "C15.width", Construct: "ColUUID"},
 	)
 }
+
+// Reverts of the three defects repaired in round 9.
+func init() {
+	add := func(prop string, ms ...Mutant) { mutants[prop] = append(mutants[prop], ms...) }
+	add("C04",
+		Mutant{Name: "column-info-sent-for-every-header", File: "query.go", Old: "\t\t\tif gotColInfo {\n\t\t\t\t// Sender waits for column info only once.\n\t\t\t\treturn errors.New(\"unexpected data block: column info already received\")\n\t\t\t}\n\t\t\tgotColInfo = true\n", New: "\t\t\t_ = gotColInfo\n", Rule: "C04.send-once", Construct: "send#1"},
+		Mutant{Name: "column-info-flag-never-raised", File: "query.go", Old: "\t\t\tgotColInfo = true\n", New: "", Rule: "C04.send-once", Construct: "send#1"},
+	)
+	add("C06",
+		Mutant{Name: "string-offset-sum-unchecked", File: "proto/col_str.go", Old: "\t\tif n > math.MaxInt-p.End {\n\t\t\treturn errors.Errorf(\"row %d: length %d overflows column size\", i, n)\n\t\t}\n", New: "\t\t_ = math.MaxInt\n", Rule: "C06.sum-overflow", Construct: "ColStr"},
+		Mutant{Name: "zstd-decoder-uncapped", File: "compress/reader.go", Old: "\t\t\t\tzstd.WithDecoderMaxMemory(maxDataSize),\n", New: "", Rule: "C06.zstd-cap", Construct: "zstd.NewReader"},
+		Mutant{Name: "zstd-decoder-cap-too-large", File: "compress/reader.go", Old: "zstd.WithDecoderMaxMemory(maxDataSize)", New: "zstd.WithDecoderMaxMemory(64 * maxDataSize)", Rule: "C06.zstd-cap", Construct: "zstd.NewReader"},
+	)
+}
+
+// Mutants for the rules added in seeding round 9.
+func init() {
+	add := func(prop string, ms ...Mutant) { mutants[prop] = append(mutants[prop], ms...) }
+	add("C01",
+		Mutant{Name: "string-length-under-row-limit", File: "proto/reader.go", Old: "\tif n < 0 {\n\t\treturn 0, errors.Errorf(\"size %d is invalid\", n)\n\t}\n\n\treturn n, nil", New: "\tif err := checkRows(n); err != nil {\n\t\treturn 0, errors.Wrap(err, \"size\")\n\t}\n\n\treturn n, nil", Rule: "C01.strlen", Construct: "StrLen"},
+		Mutant{Name: "block-rows-under-column-limit-c01", File: "proto/block.go", Old: "\t\tif err := checkRows(v); err != nil {\n\t\t\treturn errors.Wrap(err, \"rows count\")\n\t\t}", New: "\t\tif v > maxColumnsInBlock || v < 0 {\n\t\t\treturn errors.Errorf(\"invalid rows number %d\", v)\n\t\t}", Rule: "C01.limits", Construct: "Block.Rows"},
+	)
+	add("C02",
+		Mutant{Name: "uuid-swap-from-advanced-cursor", File: "proto/col_uuid_safe.go", Old: "\tbswap.Swap64(b.Buf[start:]) // BE <-> LE", New: "\tbswap.Swap64(b.Buf[offset:]) // BE <-> LE", Rule: "C02.swap", Construct: "ColUUID"},
+		Mutant{Name: "lowcard-32bit-keys-from-16bit-column", File: "proto/col_low_cardinality.go", Old: "\tcase KeyUInt32:\n\t\tc.keys32.EncodeColumn(b)", New: "\tcase KeyUInt32:\n\t\tc.keys16.EncodeColumn(b)", Rule: "C02.keywidth", Construct: "EncodeColumn/case32"},
+	)
+	add("C03",
+		Mutant{Name: "block-rows-under-column-limit-c03", File: "proto/block.go", Old: "\t\tif err := checkRows(v); err != nil {\n\t\t\treturn errors.Wrap(err, \"rows count\")\n\t\t}", New: "\t\tif v > maxColumnsInBlock || v < 0 {\n\t\t\treturn errors.Errorf(\"invalid rows number %d\", v)\n\t\t}", Rule: "C03.limits", Construct: "Block.Rows"},
+	)
+	add("C05",
+		Mutant{Name: "compress-empty-payload-keeps-previous-frame", File: "compress/writer.go", Old: "func (w *Writer) Compress(buf []byte) error {\n", New: "func (w *Writer) Compress(buf []byte) error {\n\tif len(buf) == 0 {\n\t\treturn nil\n\t}\n", Rule: "C05.fresh-output", Construct: "Compress"},
+		Mutant{Name: "expansion-ratio-guard-for-all-codecs", File: "compress/reader.go", Old: "\tr.data = append(r.data[:0], make([]byte, dataSize)...)", New: "\tif dataSize > rawSize*255 {\n\t\treturn errors.Errorf(\"data size %d is not reachable from %d bytes\", dataSize, rawSize)\n\t}\n\tr.data = append(r.data[:0], make([]byte, dataSize)...)", Rule: "C05.fields-independent", Construct: "readBlock"},
+	)
+	add("C06",
+		Mutant{Name: "none-frame-served-from-raw-by-data-size", File: "compress/reader.go", Old: "\t\tcopy(r.data, r.raw[headerSize:])", New: "\t\tr.data = r.raw[headerSize : headerSize+dataSize]", Rule: "C06.wire-slice", Construct: "readBlock"},
+	)
+	add("C07",
+		Mutant{Name: "auto-infers-json-through-state-dropping-helpers", File: "proto/col_auto.go", Old: "\tcase ColumnTypeBool:\n\t\tc.Data = new(ColBool)", New: "\tcase ColumnTypeJSON:\n\t\tc.Data = new(ColJSONStr)\n\tcase ColumnTypeBool:\n\t\tc.Data = new(ColBool)", Rule: "C07.auto-stateful", Construct: "ColJSONStr"},
+	)
+	add("C09",
+		Mutant{Name: "lowcard-32bit-keys-written-from-16bit-column", File: "proto/col_low_cardinality.go", Old: "\tcase KeyUInt32:\n\t\tc.keys32.WriteColumn(w)", New: "\tcase KeyUInt32:\n\t\tc.keys16.WriteColumn(w)", Rule: "C09.keywidth", Construct: "WriteColumn/case32"},
+	)
+	add("C11",
+		Mutant{Name: "max-conns-raised-to-min-conns", File: "chpool/pool.go", Old: "\tif o.HealthCheckPeriod == 0 {", New: "\tif o.MaxConns < o.MinConns {\n\t\to.MaxConns = o.MinConns\n\t}\n\tif o.HealthCheckPeriod == 0 {", Rule: "C11.limits", Construct: "MaxConns"},
+	)
+	add("C12",
+		Mutant{Name: "column-info-handed-over-as-shared-slice", File: "query.go", Old: "\t\t\tinfo := append(proto.ColInfoInput(nil), result...)\n", New: "\t\t\tinfo := result\n", Rule: "C12.handoff", Construct: "handoff"},
+	)
+	add("C14",
+		Mutant{Name: "vectored-block-with-advertised-revision", File: "query.go", Old: "b.WriteBlock(c.writer, c.protocolVersion, input)", New: "b.WriteBlock(c.writer, c.info.ProtocolVersion, input)", Rule: "C14.version", Construct: "encodeBlock"},
+	)
+	add("C16",
+		Mutant{Name: "downcast-decimal128-up-to-39", File: "proto/column.go", Old: "\tcase prec < 39:", New: "\tcase prec < 40:", Rule: "C16.decimal", Construct: "decimal"},
+	)
+	add("C17",
+		Mutant{Name: "client-data-decoded-into-a-copy", File: "proto/client_data.go", Old: "func (c *ClientData) DecodeAware(", New: "func (c ClientData) DecodeAware(", Rule: "C17.receiver", Construct: "ClientData"},
+	)
+	add("C19",
+		Mutant{Name: "interval-scale-inferred-into-a-copy", File: "proto/col_interval.go", Old: "func (c *ColInterval) Infer(", New: "func (c ColInterval) Infer(", Rule: "C19.receiver", Construct: "ColInterval"},
+	)
+	add("C20",
+		Mutant{Name: "datetime-row-zero-is-no-value", File: "proto/col_datetime.go", Old: "\treturn c.Data[i].Time().In(c.loc())", New: "\tif c.Data[i] == 0 {\n\t\treturn time.Time{}\n\t}\n\treturn c.Data[i].Time().In(c.loc())", Rule: "C20.row-uniform", Construct: "ColDateTime.Row"},
+		Mutant{Name: "datetime64-rounded-to-nearest-tick", File: "proto/datetime64.go", Old: "\tscale := p.Scale()\n\treturn DateTime64(t.Unix()", New: "\tscale := p.Scale()\n\tt = t.Round(p.Duration())\n\treturn DateTime64(t.Unix()", Rule: "C20.ticks-of-arg", Construct: "ToDateTime64"},
+	)
+}
